@@ -404,6 +404,58 @@ theorem agree_tieBreaking {sM sT : Sig} {M M' T T' : Sem} (hM : Agree sM M M') (
     | tie _ => rfl
     | none => rfl
 
+/-! ### filling tie places in order -/
+
+theorem fillTie_cons_other (t : List Cand) (x : V) (hx : notTie t x = true) (r cs : List V) :
+    fillTie t (x :: r) cs = (fillTie t r cs).map (x :: ·) := by
+  cases cs with
+  | nil => simp [fillTie]
+  | cons d ds =>
+    cases x <;> simp_all [fillTie, notTie]
+
+theorem replaceFirst_cons_other (t : List Cand) (x c : V) (hx : notTie t x = true) (xs : List V) :
+    replaceFirst t c (x :: xs) = (replaceFirst t c xs).map (x :: ·) := by
+  cases x <;> simp_all [replaceFirst, notTie]
+
+theorem fillTie_step (t : List Cand) (c : V) (hc : notTie t c = true) (cs : List V) :
+    ∀ res : List V, fillTie t res (c :: cs) = (replaceFirst t c res).bind (fun r => fillTie t r cs)
+  | [] => by simp [fillTie, replaceFirst]
+  | x :: xs => by
+      by_cases hx : notTie t x = true
+      · rw [fillTie_cons_other t x hx, replaceFirst_cons_other t x c hx, fillTie_step t c hc cs xs]
+        cases replaceFirst t c xs with
+        | none => rfl
+        | some r => simp [fillTie_cons_other t x hx]
+      · have hxt : x = .tie t := by
+          cases x <;> simp_all [notTie]
+        subst hxt
+        simp [fillTie, replaceFirst, fillTie_cons_other t c hc]
+
+theorem replaceSel_eq_fill (t : List Cand) : ∀ (chosen res : List V), (chosen.all (notTie t) = true) →
+    replaceSel res t chosen = (match fillTie t res chosen with
+      | some r => .ok r
+      | Option.none => .error .valueError)
+  | [], res, _ => by simp [replaceSel, fillTie]; rfl
+  | c :: cs, res, h => by
+      simp only [List.all_cons, Bool.and_eq_true] at h
+      rw [fillTie_step t c h.1 cs res]
+      simp only [replaceSel, List.foldlM_cons]
+      cases hr : replaceFirst t c res with
+      | none => rfl
+      | some r =>
+        simp only [ok_bind, Option.bind]
+        exact replaceSel_eq_fill t cs r h.2
+
+theorem foldlM_congr_mem {α β : Type} {f g : β → α → Except Err β} :
+    ∀ {l : List α} (init : β), (∀ acc, ∀ x ∈ l, f acc x = g acc x) → l.foldlM f init = l.foldlM g init
+  | [], _, _ => rfl
+  | x :: xs, init, h => by
+      simp only [List.foldlM_cons]
+      rw [h init x (by simp)]
+      cases g init x with
+      | error e => rfl
+      | ok b => exact foldlM_congr_mem b (fun acc y hy => h acc y (by simp [hy]))
+
 /-! ### arbitrary nesting -/
 
 def appMap (f : Ev → Sem) : App Ev → App Sem
